@@ -27,3 +27,84 @@ def generate_for(pid):
     if fn is not None:
         fn(info)
     return info
+
+
+def _run_tool(args, timeout=900):
+    import subprocess
+    import sys
+    from common import VERIF, REPO
+    env = dict(os.environ, HABUTAX_REPO=REPO, PYTHONDONTWRITEBYTECODE='1', HABUTAX_VERIF='1')
+    p = subprocess.run([sys.executable, '-W', 'ignore'] + args, cwd=os.path.join(VERIF, 'tools'), env=env,
+                       stdout=subprocess.PIPE, stderr=subprocess.STDOUT, timeout=timeout)
+    return p.returncode, p.stdout.decode('utf-8', 'replace')
+
+
+def gen_chartable(info):
+    """Unicode class tables of the running CPython -> Gen/CharTable.lean"""
+    import tempfile
+    tmp = tempfile.mktemp(suffix='.lean', dir='/var/tmp')
+    try:
+        code, out = _run_tool(['gen_chartable.py', tmp])
+        if code != 0:
+            info['failed'].append({'id': 'gen_chartable', 'log': out[-1500:]})
+            return
+        write_if_changed(os.path.join(GEN_DIR, 'CharTable.lean'), open(tmp, encoding='utf-8').read())
+    finally:
+        if os.path.exists(tmp):
+            os.unlink(tmp)
+
+
+def gen_C11(info):
+    gen_chartable(info)
+
+
+def gen_C12(info):
+    gen_chartable(info)
+
+
+def gen_c17_c18(info):
+    """catalogue mirror + template field trees -> Gen/C17_*.lean, Gen/C18_*.lean"""
+    import json
+    import shutil
+    import tempfile
+    tmpdir = tempfile.mkdtemp(dir='/var/tmp', prefix='hv-gen-')
+    try:
+        code, out = _run_tool(['gen_c17_c18.py', '--out-dir', tmpdir, '--quiet'])
+        if code != 0:
+            info['failed'].append({'id': 'gen_c17_c18', 'log': out[-2000:]})
+            return
+        for fn in sorted(os.listdir(tmpdir)):
+            with open(os.path.join(tmpdir, fn), encoding='utf-8') as f:
+                write_if_changed(os.path.join(GEN_DIR, fn), f.read())
+        info['c17_c18_failed'] = json.load(open(os.path.join(GEN_DIR, 'c17_c18_failed.json')))
+        obl = json.load(open(os.path.join(GEN_DIR, 'c17_c18_obligations.json')))
+        info['c17_c18_obligations'] = obl
+    finally:
+        shutil.rmtree(tmpdir, ignore_errors=True)
+
+
+def gen_C17(info):
+    gen_c17_c18(info)
+    info['extra_targets'] += ['HabuVerif.Gen.C17_2021', 'HabuVerif.Gen.C17_2022', 'HabuVerif.Gen.C17_2023']
+
+
+def gen_C18(info):
+    gen_c17_c18(info)
+    info['extra_targets'] += ['HabuVerif.Gen.C18_2021', 'HabuVerif.Gen.C18_2022', 'HabuVerif.Gen.C18_2023']
+
+
+def generate_all():
+    """used by setup: everything that `lake build` of the whole library needs"""
+    info = {'extra_targets': [], 'failed': []}
+    gen_chartable(info)
+    gen_c17_c18(info)
+    for name, fn in list(globals().items()):
+        if name.startswith('genall_'):
+            fn(info)
+    return info
+
+
+if __name__ == '__main__':
+    import sys
+    i = generate_all()
+    print('generated; generator failures:', [f.get('id') for f in i['failed']])
